@@ -1,1 +1,4 @@
 pub mod engine;
+pub mod sparql;
+pub mod oracle_datalog;
+pub mod gen_datalog;
